@@ -171,6 +171,14 @@ func Gen(t *rapid.T, tier string) any {
 					now += adv.Ms
 				}
 			}
+			if rapid.IntRange(0, 2).Draw(t, "burst_after_suspend") == 0 && budgetH > 60 {
+				// The process was suspended (no flush ticks) for hours: the
+				// flush loop has to catch up while the burst runs.
+				sus := Op{Kind: "suspend", Ms: int64(rapid.IntRange(2, 50).Draw(t, "suspend_h"))*hourMs + int64(rapid.IntRange(0, 3599).Draw(t, "suspend_s"))*1000}
+				sc.Ops = append(sc.Ops, sus)
+				now += sus.Ms
+				budgetH -= sus.Ms / hourMs
+			}
 			op = Op{Kind: "burst", G: rapid.IntRange(2, 6).Draw(t, "burst_g"), K: rapid.IntRange(3, 30).Draw(t, "burst_k"), SpreadMs: int64(rapid.IntRange(100, 4000).Draw(t, "burst_spread"))}
 			now += op.SpreadMs + 1000
 		}
@@ -296,8 +304,8 @@ func (n *node) tick() error {
 			return nil
 		}
 		// sleepFor == 0: the real loop calls flush again at once.
-		if spins > 3 {
-			return kernel.Violationf("flush-spin", "flush keeps asking for an immediate re-run")
+		if spins > 100000 {
+			return fmt.Errorf("harness: flush keeps asking for an immediate re-run")
 		}
 	}
 }
@@ -693,6 +701,14 @@ func (n *node) apply(op Op) error {
 		m.clear(time.Now())
 		n.c.Fault("clear")
 	case "read":
+	case "suspend":
+		// Simulated time passes without the flush loop running (SIGSTOP,
+		// laptop lid): the next tick finds the unit hours behind.
+		d := time.Duration(op.Ms) * time.Millisecond
+		time.Sleep(d)
+		n.c.SimTime += d
+		n.c.Fault("process_suspended")
+		return errSkipCheck
 	case "burst":
 		return n.burst(op)
 	default:
@@ -713,6 +729,15 @@ func (n *node) burst(op Op) error {
 		n.c.Probe("burst_skipped")
 		return nil
 	}
+	if hourOf(time.Now())-m.cur >= m.limitH {
+		// The unit that is still current (the process was suspended) will be
+		// outside the window once the flush loop has caught up: updates booked
+		// to it could not be observed.  First let the loop catch up.
+		if err := n.advance(time.Now()); err != nil {
+			return err
+		}
+		n.c.Probe("burst_after_catch_up")
+	}
 	before, err := n.read()
 	if err != nil {
 		return err
@@ -727,8 +752,13 @@ func (n *node) burst(op Op) error {
 		go func(g int) {
 			defer wg.Done()
 			for i := 0; i < op.K; i++ {
-				// Deterministic offsets: goroutine g's i-th update.
+				// Deterministic offsets: goroutine g's i-th update; the first
+				// third of them go out at once, in parallel with whatever the
+				// flush loop is doing at the start instant.
 				off := time.Duration((int64(i)*op.SpreadMs/int64(op.K))+int64(g)) * time.Millisecond
+				if i < op.K/3 {
+					off = 0
+				}
 				time.Sleep(time.Until(start.Add(off)))
 				n.s.Update(&stats.Entry{Client: "10.9.9.9", Domain: "burst.test", Result: stats.RNotFiltered, ProcessingTime: time.Millisecond})
 			}
@@ -787,6 +817,9 @@ func (n *node) burst(op Op) error {
 		}
 		delta := a - b
 		got += delta
+		if delta > 0 && h != h0 && h < hourOf(start) {
+			return kernel.Violationf("burst-update-in-past-hour", "%d update(s) counted during the burst (which began in hour %d, with the unit of hour %d still current) were booked to hour %d, which was never current while they were counted", delta, hourOf(start), h0, h)
+		}
 		if delta > 0 {
 			hc := m.hours[h]
 			if hc == nil {
@@ -807,6 +840,10 @@ func (n *node) burst(op Op) error {
 	n.c.Probe("burst_conserved")
 	return nil
 }
+
+// errSkipCheck tells Run not to read the API after the operation (reading
+// would be legitimate, but while the process is "suspended" nothing runs).
+var errSkipCheck = fmt.Errorf("skip check")
 
 func apiErr(err error) error {
 	if hp, ok := err.(*env.HandlerPanic); ok {
@@ -836,7 +873,10 @@ func Run(t *testing.T, scAny any, c *kernel.Ctx) error {
 		}
 		for i, op := range sc.Ops {
 			c.Eventf("op %d %s t=%s", i, op.Kind, time.Since(kernel.Epoch))
-			if err := n.apply(op); err != nil {
+			if err := n.apply(op); err == errSkipCheck {
+				c.Step()
+				continue
+			} else if err != nil {
 				return err
 			}
 			if err := n.check(); err != nil {
@@ -866,6 +906,6 @@ var Prop = &kernel.Property{
 	Real:        []string{"internal/stats (StatsCtx, unit, flush body, HTTP handlers)", "go.etcd.io/bbolt on a tmpfs file"},
 	Stub:        []string{"the 1 s periodicFlush loop driver (body real, via VerifFlush)", "admin HTTP client (handlers called in-process)", "wall clock (synctest fake clock)"},
 	Assumptions: []string{"an update between an hour boundary and the next 1 s flush tick is booked to the hour the flush loop still considers current", "hours that were outside an earlier, shorter window may or may not reappear after the window is widened", "after a crash (no Close) the current hour may lose un-persisted counts; older hours may not"},
-	FaultKinds:  []string{"clean_restart", "process_crash", "clock_jump_hours", "retention_change", "clear", "concurrent_burst"},
-	ProbeNames:  []string{"hour_rollover", "update_counted", "update_not_counted", "update_between_boundary_and_tick", "aged_hours_in_window", "daily_series_checked", "tops_checked", "crash_lost_counts", "sparse_skip", "burst_conserved", "burst_across_rollover", "burst_skipped"},
+	FaultKinds:  []string{"clean_restart", "process_crash", "clock_jump_hours", "retention_change", "clear", "concurrent_burst", "process_suspended"},
+	ProbeNames:  []string{"hour_rollover", "update_counted", "update_not_counted", "update_between_boundary_and_tick", "aged_hours_in_window", "daily_series_checked", "tops_checked", "crash_lost_counts", "sparse_skip", "burst_conserved", "burst_across_rollover", "burst_skipped", "burst_after_catch_up"},
 }
